@@ -81,7 +81,13 @@ func (gowFamily) Gen(r *rand.Rand, i int, tier string) *hc.Case {
 }
 
 var gowErrs = []error{errors.New("e0"), errors.New("e1"), errors.New("e2"), errors.New("e3")}
-var gowPanics = []interface{}{"p0", errors.New("p1"), pstruct{2, 2}, 3}
+// panic values of several dynamic types, the last a genuine runtime.Error (what a nil-map write raises)
+var gowPanics = []interface{}{"p0", errors.New("p1"), pstruct{2, 2}, func() (v interface{}) {
+	defer func() { v = recover() }()
+	var m map[int]int
+	m[0] = 1
+	return nil
+}()}
 var gowRunFails = errors.New("run failed before the fallback")
 
 func (gowFamily) Exec(c *hc.Case) {
@@ -127,7 +133,13 @@ func (gowFamily) Exec(c *hc.Case) {
 	}
 	ctx, cancel := context.WithCancel(context.Background())
 	defer cancel()
-	if p.Order == "finish_first" && p.K%2 == 0 {
+	if p.CtxEnd == "timeout" {
+		// a caller that has its own, much later deadline: the execution timeout must still end the call
+		var c2 context.CancelFunc
+		ctx, c2 = context.WithTimeout(ctx, time.Hour)
+		defer c2()
+	}
+	if (p.Order == "finish_first" || p.Order == "both_ready") && p.K%2 == 0 {
 		// make sure the function really has finished (result or panic already handed over) before Go's select
 		// looks at anything: Done() is the first thing the select evaluates
 		ctx = slowDoneCtx{ctx}
